@@ -50,6 +50,17 @@ EXTRA = {  # seeds that also violate a neighbouring property's statement
     'C12_r6_solve_pspline_eps_jitter_on_btwb_diagonal': ['C07'],
     'C15_r6_adaptive_minmax_check_finite_not_restored': ['C03', 'C01'],
     'C09_r6_pspline_airpls_early_exit_writes_zero_tol': ['C01'],
+    'C01_r7_register_no_data_call_keeps_sorted_order': ['C02'],
+    'C02_r7_aspls_2d_alpha_sorted_with_inverted_order': ['C06'],
+    'C06_r7_aspls_alpha_assigned_through_sort_index': ['C02'],
+    'C08_r7_pinv_cache_validated_by_shape_only': ['C03'],
+    'C15_r7_setup_polynomial_skips_order_check_on_cached_vandermonde': ['C03'],
+    'C12_r7_design_matrix_repeated_x_shortcut_wraps_at_row_0': ['C10'],
+    'C16_r7_individual_axes_inner_fitter_inherits_output_dtype': ['C01'],
+    'C20_r7_airpls_2d_l1_norm_via_linalg_norm': ['C09'],
+    'C09_r7_brpls_outer_stop_uses_inner_tol': ['C01'],
+    'C11_r7_mpspline_reset_penalty_without_diff_order': ['C07'],
+    'C10_r7_solve_pspline_fallback_drops_zero_weight_samples': ['C12'],
 }
 
 
